@@ -79,6 +79,8 @@ def run(ck):
     ck.rule("C04.R9", "no_std registry: a first hit's interest-then-push is one step with respect to a rebuild (the std registry's lock, R1)", floor=1)
     ck.rule("C04.R10", "the collector that receives an emission is the one whose filter enabled it: one dispatcher lookup per emission", floor=1)
     ck.rule("C04.R11", "`every callsite is offered to every collector that is live afterwards`: every constructor of a Dispatch registers it (as C01.R6)", floor=3)
+    ck.rule("C04.R13", "two racing turnovers cannot leave the published maximum below what a live collector accepts: the maximum is computed and published by the "
+            "registry rebuild itself, while it holds the registry lock (as C01.R5 / R7 / R15)", floor=6)
     ck.rule("C04.R12", "racing installers of the global default: one wins by compare-and-swap on the once-flag, a loser leaves the flag and the installed "
             "dispatcher alone, readers see the dispatcher only behind INITIALIZED (as C02.R4)", floor=5)
     ck.rule("C04.R6", "collector wrappers pass register_callsite / on_register_dispatch / max_level_hint on to the wrapped collector (as C09.R1/R2)", floor=12)
@@ -96,6 +98,11 @@ def run(ck):
     from rules import C02
     C02.r1(ck, F, rid="C04.R8")
     C02.r4(ck, F, rid="C04.R12")
+    # computing the new maximum and publishing it are one step with respect to other registrations and rebuilds: set_max is
+    # called from inside the rebuild (under the registry lock), exactly once on every path, after the fold (C01.R5/R7/R15)
+    _C01.r5(ck, F, rid="C04.R13")
+    _C01.r7(ck, F, rid="C04.R13")
+    _C01.rebuild_unconditional(ck, rid="C04.R13")
     # a collector reached through Box/Arc/Layered must itself be offered every callsite (C09.R1/R2, instantiated)
     from rules import C09
     C09.wrapper_rules(ck, F, rids={"R0": "C04.R6", "R1": "C04.R6", "R2": "C04.R6", "R3": "C04.R6"}, traits=["tracing_core::collect::Collect"],
